@@ -238,7 +238,11 @@ def check_layout(case, ctx):
         data2[1] = present(frac, fit_kind, t["fit_shape"], "float64")
         ref = fit_predict(case, np.array(e, dtype="float64"), np.array(n, dtype="float64"), [np.array(case["data"][0], dtype="float64"), np.array(frac, dtype="float64")],
                           np.array(qe, dtype="float64"), np.array(qn, dtype="float64"))
-    extra = [present([float(i) for i in range(len(e))], fit_kind, t["fit_shape"], "float64") for _ in range(t["extra"])]
+    # the ignored extra coordinates may hold anything, also missing values (a station without a height)
+    junk = [float(i) for i in range(len(e))]
+    if len(junk) >= 3 and build.plain_flag(case):
+        junk[1], junk[-1] = float("nan"), float("inf")
+    extra = [present(junk, fit_kind, t["fit_shape"], "float64") for _ in range(t["extra"])]
     qe2, qn2 = present(qe, t["query"], t["query_shape"], dq), present(qn, t["query"], t["query_shape"], dq)
     qextra = [present([1.0] * len(qe), t["query"], t["query_shape"], "float64") for _ in range(t["qextra"])]
     got = fit_predict(case, e2, n2, data2, qe2, qn2, extra, qextra)
